@@ -1,2 +1,3 @@
 import GinjaxVerif.Properties.C02
+import GinjaxVerif.Properties.C16
 import GinjaxVerif.Properties.C19
